@@ -52,6 +52,29 @@ func c06MitigatedSpec(rng *rand.Rand, j int) *SessSpec {
 	return sp
 }
 
+func c06MitigatedLoaded(rng *rand.Rand, j int) *SessSpec {
+	sp := &SessSpec{NumVB: 2, Nodes: 2, Replicas: 1, AckSeed: rng.Int63(), Backend: "file", Backlog: map[int][][]ItemSpec{}, RollbackMitigation: true,
+		RMIntervalMs: 10 + rng.Intn(10), ObserveInit: map[string][2]uint64{}, PNow: 1, PreStore: map[int][4]uint64{}}
+	base := uint64(30 + rng.Intn(10))
+	var sn []ItemSpec
+	for k := 0; k < 8; k++ {
+		sn = append(sn, ItemSpec{K: "m", Key: []byte(fmt.Sprintf("ml%d-%d", j, k)), Val: []byte("{}"), Seq: base + uint64(k)})
+	}
+	sp.Backlog[0] = [][]ItemSpec{sn}
+	mid := base + 2 + uint64(rng.Intn(3))
+	sp.PreStore[0] = [4]uint64{0xabc000, mid, base, base + 7}
+	sp.PreStore[1] = [4]uint64{0xabc001, 0, 0, 0}
+	sp.Backlog[1] = [][]ItemSpec{{{K: "m", Key: []byte(fmt.Sprintf("mo%d", j)), Val: []byte("{}")}}}
+	for ix := 0; ix < 2; ix++ {
+		sp.ObserveInit[fmt.Sprintf("0:%d", ix)] = [2]uint64{0, base - 5} // persisted lies below the resumed position
+		sp.ObserveInit[fmt.Sprintf("1:%d", ix)] = [2]uint64{0, 1000}
+	}
+	sp.GatedVB = 0
+	sp.Steps = []Step{{Op: "waitrounds", VB: 0, N: 3}, {Op: "append", VB: 1, Items: []ItemSpec{{K: "m", Key: []byte("mo-live"), Val: []byte("{}")}}}, {Op: "sleep", Ms: 150}, {Op: "commit"},
+		{Op: "observe", VB: 0, N: 0, St: 1000}, {Op: "observe", VB: 0, N: 1, St: 1000}, {Op: "barrier"}, {Op: "ack", Sel: "all"}, {Op: "commit"}}
+	return sp
+}
+
 func c06Spec(rng *rand.Rand, i int) *SessSpec {
 	sp := &SessSpec{NumVB: 1 + rng.Intn(6), Nodes: 1 + rng.Intn(2), AckSeed: rng.Int63(), Backlog: map[int][][]ItemSpec{}}
 	sp.Backend = []string{"mem", "cb", "mem", "cb", "file"}[rng.Intn(5)]
@@ -200,6 +223,12 @@ func init() {
 			xr := rand.New(rand.NewSource(seed*17 + 9))
 			for j := 0; j < n/50; j++ {
 				out = append(out, drv.Scenario{Kind: "session", Seed: seed, Params: mustJSON(c06MitigatedSpec(xr, j)), TimeoutS: 90})
+			}
+			// ... and a vBucket resumed from a checkpoint that lies ahead of what the copies report persisted (a restart after
+			// a fail-over onto a node whose persistence lags): its events wait, a save triggered by another vBucket writes the
+			// whole file - the resumed position goes back into it unchanged
+			for j := 0; j < n/100; j++ {
+				out = append(out, drv.Scenario{Kind: "session", Seed: seed, Params: mustJSON(c06MitigatedLoaded(xr, j)), TimeoutS: 90})
 			}
 			return out
 		},
